@@ -533,6 +533,52 @@ func TestC19(t *testing.T) {
 			c.Event("backlog_cases", 1)
 		}
 	})
+	// three streams, messages whose sizes are powers of two, one message per chunk: the backlog
+	// of stream b is partly delivered (the reader then waits for an incomplete message of stream
+	// c), and grows again past 64 KiB, 128 KiB ... in steps that land exactly on those sizes
+	rec.Suite("backlog-refilled-in-powers-of-two", rec.N(24, 2000), func(c *ev.Case) {
+		r := c.R
+		a, b, cs := uint16(r.IntN(4)), uint16(4+r.IntN(4)), uint16(8+r.IntN(8))
+		cc := &c19Case{streams: []uint16{a, b, cs}, msgs: map[uint16][][]byte{}, chunks: map[uint16][][]byte{}}
+		unit := []int{1024, 1024, 512, 2048, 256}[r.IntN(5)]
+		ma := seqMsg(uint32(a)<<16|1, 100)
+		cc.msgs[a] = [][]byte{ma}
+		cutA := 1 + r.IntN(len(ma)-1)
+		cc.chunks[a] = [][]byte{ma[:cutA], ma[cutA:]}
+		// stream c: one message, of which a first part arrives early
+		partC := 2000 + r.IntN(28000)
+		mc := seqMsg(uint32(cs)<<16|1, (partC+1000+r.IntN(5000))&^3)
+		cc.msgs[cs] = [][]byte{mc}
+		cc.chunks[cs] = [][]byte{mc[:partC], mc[partC:]}
+		// stream b: n1 messages before the rest of a, n2 + n3 afterwards
+		n1 := (40000 + r.IntN(24000)) / unit
+		target := []int{66 << 10, 70 << 10, 130 << 10, 140 << 10, 260 << 10}[r.IntN(5)]
+		n2 := target / unit
+		n3 := 1 + r.IntN(8)
+		for i := 1; i <= n1+n2+n3; i++ {
+			m := seqMsg(uint32(b)<<16|uint32(i), unit-20)
+			cc.msgs[b] = append(cc.msgs[b], m)
+			cc.chunks[b] = append(cc.chunks[b], m)
+		}
+		merge := []c19Chunk{{a, cc.chunks[a][0]}}
+		for i := 0; i < n1; i++ {
+			merge = append(merge, c19Chunk{b, cc.chunks[b][i]})
+		}
+		merge = append(merge, c19Chunk{cs, cc.chunks[cs][0]}, c19Chunk{a, cc.chunks[a][1]})
+		for i := n1; i < n1+n2+n3; i++ {
+			merge = append(merge, c19Chunk{b, cc.chunks[b][i]})
+		}
+		merge = append(merge, c19Chunk{cs, cc.chunks[cs][1]})
+		c.Class("backlog-refilled/unit=%d/target=%dKiB", unit, target>>10)
+		good := true
+		leak := runBubbleWD(t, rec, c, 120*time.Second, func() { good = runC19(c, ctx, cc, merge, true, (c.I/4)%2 == 0, (c.I/8)%4) })
+		if leak != "" && !c.Failed() {
+			c.Fail(ev.Sig{"op": "bubble-leak"}, nil, nil, "goroutines left blocked: %s", leak)
+		}
+		if good {
+			c.Event("backlog_cases", 1)
+		}
+	})
 	// long pauses in the middle: data of stream b is set aside while a message of stream a is
 	// incomplete, half a minute passes, more data of stream b arrives, then the rest of a - after
 	// an earlier phase in which b's buffer had grown large and was drained again
